@@ -80,6 +80,7 @@ func snapStr(m map[string]finfo) string {
 type inst struct {
 	version ver
 	files   map[string]finfo
+	damaged string // "" | broken-exe (installed executable fails) | missing-exe (executable gone, directory left over)
 }
 
 var shapes = []string{"file", "file", "dir", "dir-nonexec", "dir-extra-before", "dir-extra-after", "dir-nonexec-extra-after", "dir-nonexec-extra-before", "dir-subdir", "dir-subdir-before",
@@ -145,7 +146,25 @@ func runSequence(ctx context.Context, r *lib.Run, seq int, pending *[]func()) (b
 		for op := 0; op < nops; op++ {
 			name := []string{"foo", "bar"}[rng.Intn(2)]
 			resync := false
-			if rng.Intn(7) == 0 {
+			if in := model[name]; in != nil && in.damaged == "" && rng.Intn(9) == 0 {
+				// damage the installed plugin behind the manager's back: a malfunctioning executable, or a left-over
+				// directory without executable (e.g. an interrupted installation), plus a stray old file
+				exe := filepath.Join(root, name, "notation-"+name)
+				if rng.Bool() {
+					in.damaged = "broken-exe"
+					os.WriteFile(exe, []byte("#!/bin/sh\nexit 1\n"), 0o755)
+				} else {
+					in.damaged = "missing-exe"
+					os.Remove(exe)
+				}
+				os.WriteFile(filepath.Join(root, name, "old-lib-from-previous-version.so"), []byte("stale"), 0o644)
+				in.files = map[string]finfo{}
+				for k, v := range snap(filepath.Join(root, name)) {
+					in.files[k] = v
+				}
+				trace = append(trace, fmt.Sprintf("damage %s: %s + stray file", name, in.damaged))
+				q(func() { r.Event("damage-operations") })
+			} else if rng.Intn(7) == 0 {
 				err := mgr.Uninstall(ctx, name)
 				_, had := model[name]
 				delete(model, name)
@@ -234,10 +253,15 @@ func runSequence(ctx context.Context, r *lib.Run, seq int, pending *[]func()) (b
 				switch {
 				case !want:
 					why = "unusable source or invalid/misnamed metadata"
-				case ex == nil:
+				case ex == nil || ex.damaged == "missing-exe":
+					// nothing that works is installed: no version rule applies; a left-over directory is simply replaced
 					if v.rank < 0 {
 						judged = false
 					}
+				case ex.damaged == "broken-exe" && !overwrite:
+					want, why = false, "installed plugin is malfunctioning and overwrite is not requested"
+				case ex.damaged == "broken-exe":
+					why = "overwrite over a malfunctioning plugin"
 				case overwrite:
 					why = "overwrite requested"
 				case v.rank < 0 || ex.version.rank < 0:
@@ -270,7 +294,7 @@ func runSequence(ctx context.Context, r *lib.Run, seq int, pending *[]func()) (b
 				if !judged {
 					q(func() { r.Event("not-judged-first-install-invalid-version") })
 					if err == nil {
-						model[name] = &inst{v, expect}
+						model[name] = &inst{version: v, files: expect}
 					}
 				} else if (err == nil) != want {
 					viol("install-decision", fmt.Sprintf("Install(%s %s, overwrite=%v, shape=%s) over installed %s: success=%v, model says %v (%s)", name, v.s, overwrite, shape, exv, err == nil, want, why), extra)
@@ -278,7 +302,7 @@ func runSequence(ctx context.Context, r *lib.Run, seq int, pending *[]func()) (b
 				}
 				if err == nil {
 					q(func() { r.Event("installs-succeeded") })
-					model[name] = &inst{v, expect}
+					model[name] = &inst{version: v, files: expect}
 					if newMD == nil || newMD.Version != v.s || newMD.Name != name {
 						viol("returned-metadata", fmt.Sprintf("Install reported metadata %+v, the installed plugin is %s %s", newMD, name, v.s), extra)
 					}
@@ -320,6 +344,9 @@ func runSequence(ctx context.Context, r *lib.Run, seq int, pending *[]func()) (b
 				viol("list", fmt.Sprintf("List = %v (err=%v), installed per model: %v", names, lerr, wantNames), nil)
 			}
 			for nm, in := range model {
+				if in.damaged != "" {
+					continue // deliberately damaged: cannot answer
+				}
 				p, err := mgr.Get(ctx, nm)
 				if err != nil {
 					viol("get", fmt.Sprintf("Get(%s) failed: %v", nm, err), nil)
